@@ -231,6 +231,19 @@ def op_templates():
                 return t.filter(set(i[:1]), axis=ax, invert=True, inplace=inplace), [], inplace
             T["filter-invert-first-%s-%s" % (ax, inplace)] = f_inv
 
+            # an explicit ID collection in ANOTHER order than the table's, and one naming an ID twice
+            def f_revsub(t, rng, ax=ax, inplace=inplace):
+                i = ids(t, ax)
+                keep = list(reversed(i[1:])) if len(i) > 2 else list(reversed(i))
+                return t.filter(keep, axis=ax, inplace=inplace), [], inplace
+            T["filter-reversed-subset-%s-%s" % (ax, inplace)] = f_revsub
+
+            def f_twice(t, rng, ax=ax, inplace=inplace):
+                i = ids(t, ax)
+                keep = [i[-1], i[0], i[-1]] if len(i) > 1 else list(i) * 2
+                return t.filter(np.array(keep, dtype=object), axis=ax, inplace=inplace), [], inplace
+            T["filter-id-named-twice-%s-%s" % (ax, inplace)] = f_twice
+
             def f_pred(t, rng, ax=ax, inplace=inplace):
                 return t.filter(lambda v, i, m: v.sum() > 1, axis=ax, inplace=inplace), [], inplace
             T["filter-pred-%s-%s" % (ax, inplace)] = f_pred
@@ -317,6 +330,23 @@ def op_templates():
             parts = list(t.partition(lambda i, m: i[-1] > "b", axis=ax))
             return parts[-1][1], [], False
         T["partition-last-%s" % ax] = f_part
+
+        # the mapping forms of partition: group -> [ids] (a list naming an ID twice, group labels that are IDs) and id -> group
+        def f_part3(t, rng, ax=ax):
+            i = ids(t, ax)
+            if len(i) < 2:
+                return t, [], True
+            mapping = {i[0]: [i[0], i[-1], i[0]], "rest": list(i[1:-1])} if len(i) > 2 else {i[0]: [i[0], i[0]], i[1]: [i[1]]}
+            parts = list(t.partition(mapping, axis=ax))
+            return parts[0][1], [], False
+        T["partition-group-lists-%s" % ax] = f_part3
+
+        def f_part4(t, rng, ax=ax):
+            i = ids(t, ax)
+            mapping = {x: ("g%d" % (k % 2)) for k, x in enumerate(i)}
+            parts = list(t.partition(mapping, axis=ax))
+            return parts[-1][1], [], False
+        T["partition-id-to-group-%s" % ax] = f_part4
 
         def f_part2(t, rng, ax=ax):
             parts = list(t.partition(lambda i, m: i[0], axis=ax, remove_empty=True))
